@@ -6,6 +6,10 @@ CONSTANTS
   MaxPosts = 3
   MaxOps = 5
   Deviations = {}
+  TySet = {"plain", "boolean"}
+  HkSet = {FALSE}
+  CondSet <- DefaultCondSet
+  CSet = {1}
 INVARIANT DepthFirst
 INVARIANT PriorityOrder
 INVARIANT Serial
